@@ -23,8 +23,14 @@ TEXT = {
            "DESIGN.md section 4, C08", "property-based testing (rapid): metamorphic relation over generated stream pairs"),
  "C09": _t("generated telemetry timelines with FFC periods of any length; invariant (no motion within 10 s of an FFC nor on the following frame) plus metamorphic pairs sharing the timeline and differing only before an FFC period / reset." + EXPL,
            "DESIGN.md section 4, C09", "property-based testing (rapid): history invariant + metamorphic pairs with a reference-detector witness for non-triviality"),
+ "C11": _t("generated config.toml files, camera headers and raw streams through the real ParseConfig and handleConn (over a pipe, in lock step); the finished .cptv files are decoded with the standard reader and compared with a twin processor wired by hand from the generated settings (frames, background, telemetry) and with the generated metadata (header round-trip, effective motion settings incl. camera-model defaults, threshold at trigger)." + EXPL,
+           "DESIGN.md section 4, C11", "property-based testing (rapid): end-to-end differential against a hand-wired twin + metadata round-trip"),
  "C12": _t("generated event lists x fault plans over every call type of the three sinks; bracket-protocol monitors, panic capture, bounded length under failing writes, and exact recovery on a fault-free suffix." + EXPL,
            "DESIGN.md section 4, C12", "property-based testing (rapid) with fault injection on mock sinks; protocol monitor + recovery oracle"),
+ "C13": _t("three layers: generated histories with planted bad frames against the reference recording model and a deletion metamorphic relation (processor, harness parser and real Lepton parser); generated raw frames of both formats against an independent bad-frame predicate and an independent telemetry decode (parsers); generated socket streams with bad frames through the real handleConn, files decoded and compared with the model, one report per bad frame." + EXPL,
+           "DESIGN.md section 4, C13", "property-based testing (rapid): reference model + metamorphic deletion + independent decode, at processor, parser and socket level"),
+ "C14": _t("generated camera descriptions encoded as the camera daemon does, read back under arbitrary read segmentation (round-trip, no over-consumption, truncation at every offset); generated frame/marker sequences under arbitrary segmentation through the real handleConn with the continuous recorder on, every frame must be delivered once, in order, pixel-exact, and every 'clear' must reset as the model says." + EXPL,
+           "DESIGN.md section 4, C14", "property-based testing (rapid): round-trip + segmentation-independence + reference model at the socket"),
  "C15": _t("generated dynamic-threshold streams; background/threshold invariants read in-package after every frame, both on a bare detector and inside a MotionProcessor, and at every StartRecording." + EXPL,
            "DESIGN.md section 4, C15", "property-based testing (rapid): state invariants after every step"),
  "C17": _t("generated valid-frame streams with test-recording requests; exact tiling oracle for the continuous sink, 21-frame oracle for the test sink, twin runs for independence from motion/window/requests." + EXPL,
